@@ -675,7 +675,9 @@ PROPERTIES = {
                    rule="run/rand: programs rendering dice, random and random_range in lines, conditions and assignments over several seeds; the implementation must reproduce the pure model's random values bit for bit; plus the same cases re-executed in reverse order in a second process must give identical observations",
                    leanchecker=["Ysgo.Props.C09", "Ysgo.Props.C09Facts"]),
     "C10": runprop("cmds", ("res", "log"), ("text",), 1200, 50000,
-                   extra_streams=[{"stream": "wait", "profile": "duration", "quick": 5000, "thorough": 300000, "nontrivial": lambda obs, case: obs[0] not in ("0", "9223372036854775807")},
+                   extra_streams=[{"stream": "run", "profile": "long", "quick": 3, "thorough": 12, "project": project_run(("res", "log"), ("text",)), "predicate": no_panic,
+                                   "nontrivial": lambda obs, case: len(obs) > 10000, "timeout": 1800},
+                                  {"stream": "wait", "profile": "duration", "quick": 5000, "thorough": 300000, "nontrivial": lambda obs, case: obs[0] not in ("0", "9223372036854775807")},
                                   {"stream": "wait", "profile": "shape", "quick": 70, "thorough": 1500, "nontrivial": lambda obs, case: True, "timeout": 1800},
                                   {"stream": "wait", "profile": "timing", "quick": 24, "thorough": 400, "nontrivial": lambda obs, case: True, "timeout": 1800},
                                   {"stream": "wait", "profile": "abandon", "quick": 40, "thorough": 800, "nontrivial": lambda obs, case: True, "timeout": 1800},
@@ -691,6 +693,9 @@ PROPERTIES = {
                    rule="run/visits: jump graphs with self-loops, cycles, jumps out of nested bodies and by expression, nodes marked tracking never/always, visit counters rendered in lines, snapshots and restores; compared: elements and the visit-count map after every operation; non-trivial = at least 3 distinct counter maps",
                    leanchecker=["Ysgo.Props.C11"]),
     "C12": runprop("end", ("res", "log", "v"), ("text", "dis"), 1500, 60000, predicate=both(no_panic, after_end_absorbing),
+                   # long sessions: more than ten thousand further calls after the end
+                   extra_streams=[{"stream": "run", "profile": "long", "quick": 3, "thorough": 12, "project": project_run(("res", "log", "v"), ("text", "dis")),
+                                   "predicate": both(no_panic, after_end_absorbing), "nontrivial": lambda obs, case: len(obs) > 10000, "timeout": 1800}],
                    nontrivial=lambda obs, case: sum(1 for o in obs if obs_kind(o) == "END") >= 2 and any(obs_kind(o) in ("L", "O") for o in obs),
                    rule="run/end: programs biased to reach an end (node end, <<stop>> at depth 0-3 with trailing statements, option group last) followed by further Next calls with arbitrary arguments; non-trivial = an element shown and at least two END results",
                    leanchecker=["Ysgo.Props.C12"]),
